@@ -65,25 +65,32 @@ Proof.
   induction l as [|[k' v'] r IH]; simpl; [discriminate|]. intros H. apply andb_prop in H. destruct H as [H1 H2].
   destruct (bytes_eqb k' k); [intros E; injection E as <-; exact H1|apply IH, H2].
 Qed.
-Lemma kw_nonclose id : is_close (kw_lookup id) = false.
+Lemma kw_nonclose ts id : is_close (kw_lookup ts id) = false.
 Proof.
-  unfold kw_lookup. destruct (bassoc gen_keywords_template id) as [t|] eqn:E; [|reflexivity].
-  assert (H : forallb (fun kv => negb (is_close (snd kv))) gen_keywords_template = true) by reflexivity.
+  unfold kw_lookup. destruct (bassoc (if ts then gen_keywords_template else gen_keywords_program) id) as [t|] eqn:E; [|reflexivity].
+  assert (H : forallb (fun kv => negb (is_close (snd kv))) (if ts then gen_keywords_template else gen_keywords_program) = true)
+    by (destruct ts; reflexivity).
   apply (bassoc_forall (fun t => negb (is_close t)) _ _ _ H) in E. apply negb_true_iff in E. exact E.
 Qed.
 
-Local Notation INV := INVB.
-Local Notation ext := extB.
-Local Notation ext_refl := extB_refl.
-Local Notation ext_trans := extB_trans.
-Local Notation same_core_INV := same_core_INVB.
-Local Notation INV_len := INVB_len.
-Local Notation advance_spec := advance_specB.
-Local Notation emit_at_spec := emit_at_specB.
-Local Notation emit_spec := emit_specB.
-Local Notation emitc_spec := emitc_specB.
-Local Notation prog := progB.
-Local Notation prog_ext := progB_extB.
+(* The proofs about lexCode are carried out for an abstract invariant INVX of
+   the lexer inside code, of which only four facts are used: it is INVB for
+   templates (where lexCode runs inside a block of the tiling) and INVP for
+   programs (LexProg_proofs.v).  Below, the usual names denote the abstract
+   versions. *)
+Section CodeX.
+Variable INVX : bytes -> lexer -> Prop.
+Definition extX (text : bytes) (l l' : lexer) : Prop :=
+  INVX text l' /\ (l_base l <= l_base l' /\ l_tidx l' <= l_tidx l).
+Definition progX (text : bytes) (l l' : lexer) : Prop :=
+  INVX text l' /\ (l_base l < l_base l' /\ l_tidx l' <= l_tidx l).
+Lemma progX_extX text l l' : progX text l l' -> extX text l l'.
+Proof. intros [H1 H2]. split; [exact H1|lia]. Qed.
+Lemma extX_refl text l : INVX text l -> extX text l l.
+Proof. intros H. split; [exact H|lia]. Qed.
+Lemma extX_trans text a b c : extX text a b -> extX text b c -> extX text a c.
+Proof. intros [_ H1] [H2 H3]. split; [exact H2|lia]. Qed.
+End CodeX.
 
 Ltac gs := repeat match goal with
   | H : get (l_src ?l) ?i = Some _ |- _ =>
@@ -96,6 +103,51 @@ Ltac gs := repeat match goal with
 Section CodeProofs.
 Variable U : unitab.
 Variable text : bytes.
+Variable INVX : bytes -> lexer -> Prop.
+Hypothesis X_same : forall text l l', same_core l l' -> INVX text l -> INVX text l'.
+Hypothesis X_len : forall text l, INVX text l -> l_base l + len l = nlen text.
+Hypothesis X_advance : forall text n l,
+  INVX text l -> n <= len l ->
+  exists l', advance n l = Ok l' /\ INVX text l' /\ (l_base l' = l_base l + n /\ l_tidx l' = l_tidx l)
+             /\ l_src l' = drop n (l_src l)
+             /\ len l' = len l - n /\ l' = set_src (drop n (l_src l)) (l_base l + n) l.
+Hypothesis X_emit_at : forall text line col cd ld typ n l,
+  INVX text l -> n <= len l -> n = 0 \/ is_close typ = false ->
+  exists l', emit_at line col cd ld typ n l = Ok l' /\ INVX text l' /\ (l_base l' = l_base l + n /\ l_tidx l' = l_tidx l - n)
+             /\ l_src l' = drop n (l_src l) /\ len l' = len l - n
+             /\ l_line l' = l_line l /\ l_col l' = l_col l /\ l_cdev l' = l_cdev l /\ l_ldev l' = l_ldev l
+             /\ l_ctx l' = l_ctx l /\ l_ctxs l' = l_ctxs l.
+
+Local Notation INV := INVX.
+Local Notation ext := (extX INVX).
+Local Notation ext_refl := (extX_refl INVX).
+Local Notation ext_trans := (extX_trans INVX).
+Local Notation same_core_INV := X_same.
+Local Notation INV_len := X_len.
+Local Notation advance_spec := X_advance.
+Local Notation emit_at_spec := X_emit_at.
+Local Notation prog := (progX INVX).
+Local Notation prog_ext := (progX_extX INVX).
+
+Lemma emit_specX typ n l :
+  INV text l -> n <= len l -> n = 0 \/ is_close typ = false ->
+  exists l', emit typ n l = Ok l' /\ INV text l' /\ (l_base l' = l_base l + n /\ l_tidx l' = l_tidx l - n)
+             /\ l_src l' = drop n (l_src l) /\ len l' = len l - n
+             /\ l_line l' = l_line l /\ l_col l' = l_col l /\ l_cdev l' = l_cdev l /\ l_ldev l' = l_ldev l
+             /\ l_ctx l' = l_ctx l /\ l_ctxs l' = l_ctxs l.
+Proof. apply X_emit_at. Qed.
+Lemma emitc_specX typ n l :
+  INV text l -> n <= len l -> n = 0 \/ is_close typ = false ->
+  exists l', emitc typ n l = Ok l' /\ INV text l' /\ (l_base l' = l_base l + n /\ l_tidx l' = l_tidx l - n)
+             /\ l_src l' = drop n (l_src l) /\ len l' = len l - n.
+Proof.
+  intros Hi Hn Hc. destruct (emit_specX typ n l Hi Hn Hc) as (l' & He & Hi' & Hb & Hs & Hl & _).
+  unfold emitc. rewrite He. simpl. eexists. split; [reflexivity|].
+  split; [eapply X_same; [|exact Hi']; repeat split|].
+  split; [exact Hb|]. split; [exact Hs|]. exact Hl.
+Qed.
+Local Notation emit_spec := (fun _ : bytes => emit_specX).
+Local Notation emitc_spec := (fun _ : bytes => emitc_specX).
 
 Lemma nxt_safe l i {B} (k : option N -> res B) Q E :
   (len l <= i -> safe (k None) Q E) ->
@@ -133,7 +185,7 @@ Proof.
     + apply len_fuel.
   - intros [p cols] [H1 H2]. simpl in H1, H2.
     destruct (N.ltb_spec (len l) p); [lia|].
-    destruct (emit_spec text (kw_lookup (take p (l_src l))) p l Hi H2 (or_intror (kw_nonclose _))) as (l' & He & Hi' & Hb & _).
+    destruct (emit_spec text (kw_lookup (l_tsyn l) (take p (l_src l))) p l Hi H2 (or_intror (kw_nonclose _ _))) as (l' & He & Hi' & Hb & _).
     rewrite He. simpl. split; [eapply same_core_INV; [|exact Hi']; auto with sc|]. simpl. lia.
 Qed.
 
@@ -504,7 +556,7 @@ Proof.
       split; [eapply same_core_INV; [exact Hs1|exact Hr1]|].
       destruct Hs1 as (_ & Hb & _). lia.
     + destruct (advance_spec text 3 (c_l s) Hi Hr) as (l' & Ha & Hi' & Hb & _).
-      rewrite Ha. simpl. split; [split; [exact Hi'|lia]|reflexivity].
+      rewrite Ha. simpl. split; [split; [eapply same_core_INV; [|exact Hi']; auto with sc|simpl; lia]|reflexivity].
 Qed.
 
 Ltac cstep :=
@@ -653,3 +705,23 @@ Proof.
     split; [|left; assumption]. split; [exact Hi1|]. destruct Hs. lia.
 Qed.
 End CodeProofs.
+
+(* ---- the instance for templates: lexCode inside a block of the tiling ---- *)
+Lemma code_body_safeB U text endt first s :
+  INVB text (c_l s) ->
+  safe (code_body U endt first s)
+       (fun r => match r with
+                 | Again s' => progB text (c_l s) (c_l s') /\ c_ret s' = c_ret s
+                 | Stop s' => extB text (c_l s) (c_l s') /\ (c_ret s' = true -> c_ret s = true \/ closing endt (c_l s'))
+                 end)
+       (extB text (c_l s)).
+Proof.
+  exact (code_body_safe U text INVB same_core_INVB advance_specB emit_at_specB endt first s).
+Qed.
+
+Lemma lex_code_safeB U text endt l :
+  INVB text l ->
+  safe (lex_code U endt l) (fun l' => extB text l l' /\ (endt = gen_tokenEOF \/ closing endt l')) (extB text l).
+Proof.
+  exact (lex_code_safe U text INVB same_core_INVB INVB_len advance_specB emit_at_specB endt l).
+Qed.
